@@ -1179,6 +1179,17 @@ JANET_CORE_FN(cfun_channel_pop,
     janet_await();
 }
 
+/* Would a give be handed directly to a fiber that is waiting to take? (channel lock held) */
+static int janet_chan_has_waiting_reader(JanetChannel *chan) {
+    JanetQueue *q = &chan->read_pending;
+    if (janet_chan_is_threaded(chan)) return q->head != q->tail;
+    JanetChannelPending *pending = q->data;
+    for (int32_t i = q->head; i != q->tail; i = (i + 1 < q->capacity) ? i + 1 : 0) {
+        if (pending[i].sched_id == pending[i].fiber->sched_id) return 1;
+    }
+    return 0;
+}
+
 static void chan_unlock_args(const Janet *argv, int32_t n) {
     for (int32_t i = 0; i < n; i++) {
         int32_t len;
@@ -1224,7 +1235,7 @@ JANET_CORE_FN(cfun_channel_choice,
                 chan_unlock_args(argv, i);
                 return make_close_result(chan);
             }
-            if (janet_q_count(&chan->items) < chan->limit) {
+            if (janet_q_count(&chan->items) < chan->limit || janet_chan_has_waiting_reader(chan)) {
                 janet_channel_push_with_lock(chan, data[1], 1);
                 chan_unlock_args(argv, i);
                 return make_write_result(chan);
